@@ -68,6 +68,87 @@ def related_pair(n, rng):
     if rng.getrandbits(1): a, b = b, a
     return a, b
 
+_ES = {8: 0, 16: 1, 32: 2}
+def neartie_triple(n, rng):
+    """(a, b, c) with a*b + c within a few units of the last place of an exact rounding TIE (or of a representable value):
+    pick a, b, pick a target boundary t = the midpoint between two adjacent posits (an (n+1)-bit posit) or a posit itself,
+    and let c be the posit nearest to t - a*b (and its neighbours).  This drives the sticky / borrow / guard logic that
+    uniformly random or merely structured triples essentially never reach."""
+    import sys, os
+    sys.path.insert(0, os.path.join(os.path.dirname(os.path.dirname(os.path.abspath(__file__))), 'tools'))
+    from pyspec import to_rat, rnd
+    es = _ES[n]; mask = (1 << n) - 1
+    while True:
+        a = structured_posit(n, rng); b = structured_posit(n, rng)
+        va, vb = to_rat(n, es, a), to_rat(n, es, b)
+        if va is None or vb is None: continue
+        z = structured_posit(n, rng)
+        if z in (0, 1 << (n - 1)): continue
+        # boundary: an (n+1)-bit posit between z and its successor (tie), or z itself
+        t = to_rat(n + 1, es, ((z << 1) | rng.choice((0, 1, 1, 1))) & ((1 << (n + 1)) - 1))
+        if t is None: continue
+        d = t - va * vb
+        if d == 0: continue
+        c = rnd(n, es, d)
+        c = (c + rng.choice((0, 0, 0, 1, -1, 2, -2))) & mask
+        if c == (1 << (n - 1)): continue
+        k = rng.randint(0, 2)
+        if k == 1: a = (-a) & mask
+        if k == 2: b = (-b) & mask; c = c
+        return a, b, c
+
+def neartie_pair(n, kind, rng):
+    """operand pairs whose exact result sits on, or a sliver away from, a rounding boundary (tie between adjacent posits or a
+    representable value): pick x and a boundary t, solve the operation for y and round it to a posit (and its neighbours)."""
+    import sys, os
+    sys.path.insert(0, os.path.join(os.path.dirname(os.path.dirname(os.path.abspath(__file__))), 'tools'))
+    from pyspec import to_rat, rnd
+    es = _ES[n]; mask = (1 << n) - 1; nar = 1 << (n - 1)
+    while True:
+        x = structured_posit(n, rng) if rng.random() < 0.6 else rng.getrandbits(n)
+        z = structured_posit(n, rng) if rng.random() < 0.6 else rng.getrandbits(n)
+        if x in (0, nar) or z in (0, nar): continue
+        vx = to_rat(n, es, x)
+        t = to_rat(n + 1, es, ((z << 1) | rng.choice((0, 1, 1, 1))) & ((1 << (n + 1)) - 1))
+        if t is None or t == 0: continue
+        if kind == 'add': q = t - vx
+        elif kind == 'sub': q = vx - t          # x - y = t
+        elif kind == 'mul': q = t / vx
+        else: q = vx / t                        # x / y = t
+        if q == 0: continue
+        y = (rnd(n, es, q) + rng.choice((0, 0, 0, 1, -1))) & mask
+        if y in (0, nar): continue
+        return x, y
+
+def halfulp_triple(n, rng):
+    """(a, b, c) with a*b = ±(half an ulp of c)·(1+δ), |δ| tiny: c + a*b is an exact tie displaced by a sliver that lives
+    only in the product bits the alignment shift discards (sticky / borrow handling of the |c| > |a*b| branch), and, by
+    symmetry (swap roles), c tiny against the product."""
+    import sys, os
+    sys.path.insert(0, os.path.join(os.path.dirname(os.path.dirname(os.path.abspath(__file__))), 'tools'))
+    from pyspec import to_rat, rnd
+    es = _ES[n]; mask = (1 << n) - 1; nar = 1 << (n - 1)
+    while True:
+        c = structured_posit(n, rng) if rng.random() < 0.7 else rng.getrandbits(n)
+        if c in (0, nar): continue
+        vc = to_rat(n, es, c)
+        up = rng.getrandbits(1)
+        t = to_rat(n + 1, es, ((c << 1) + (1 if up else -1)) & ((1 << (n + 1)) - 1))   # tie just above / below c in pattern order
+        if t is None or t == 0: continue
+        p0 = t - vc
+        if p0 == 0: continue
+        a = rng.getrandbits(n - 1) | 1
+        if a in (0, nar): continue
+        va = to_rat(n, es, a)
+        q = abs(p0) / va
+        b = rnd(n, es, q)
+        b = (b + rng.choice((0, 0, 0, 0, 1, -1))) & mask
+        if b in (0, nar): continue
+        if p0 < 0: a = (-a) & mask
+        if rng.random() < 0.15:   # a few with the product pointing away from the tie
+            a = (-a) & mask
+        return a, b, c
+
 def triple(n, rng):
     a, b = related_pair(n, rng) if rng.random() < 0.4 else (anyp(n, rng), anyp(n, rng))
     t = rng.randint(0, 5)
@@ -138,7 +219,7 @@ def arg_of(kind, n, rng, TYPES):
     w = {'i8': 8, 'i16': 16, 'i32': 32, 'i64': 64, 'isize': 64, 'u8': 8, 'u16': 16, 'u32': 32, 'u64': 64, 'usize': 64}[kind]
     return int_bits(w, rng)
 
-def cases_for(ty, n, args, count, rng, TYPES, exhaustive_limit=1 << 16):
+def cases_for(ty, n, args, count, rng, TYPES, exhaustive_limit=1 << 16, op=''):
     """yield argument tuples for an op with the given arg kinds"""
     args = list(args)
     if all(k == 'P' for k in args):
@@ -159,6 +240,10 @@ def cases_for(ty, n, args, count, rng, TYPES, exhaustive_limit=1 << 16):
             for a in special_posits(n):
                 for b in S:
                     yield (a, b); yield (b, a); k += 2
+            kind = next((kk for kk in ('add', 'sub', 'mul', 'div') if op.lower().startswith(kk) or op == 'recip'), None)
+            if kind and n > 8:
+                for _ in range(min(count // 3, 15000)):
+                    yield neartie_pair(n, kind, rng); k += 1
             while k < count:
                 yield related_pair(n, rng); k += 1
             return
@@ -168,6 +253,10 @@ def cases_for(ty, n, args, count, rng, TYPES, exhaustive_limit=1 << 16):
             for a in S:
                 for b in S:
                     for c in S: yield (a, b, c); k += 1
+            nt = min(count // 4, 20000) if n > 8 else 0
+            for _ in range(nt):
+                yield neartie_triple(n, rng); k += 1
+                yield halfulp_triple(n, rng); k += 1
             while k < count:
                 yield triple(n, rng); k += 1
             return
